@@ -126,6 +126,9 @@ def model_check(scn, workdir, fixes=None, timeout=60, workers=4, name='MC', simu
             res['schedule'] = sched
             last = states[-1][1]
             res['tags'] = sorted(last['h']['viol'])
+            qt = tv.extract_print(out, 'QTAGS')
+            if qt:
+                res['tags'] = sorted(set(res['tags']) | set(qt))
             res['final_pc'] = last['pc']
     elif 'Error' in out and not res['complete'] and rc != 124:
         res['error'] = out[-3000:]
